@@ -94,7 +94,7 @@ def main(tier, replay=None):
         camp.run(hdr, ex, "random/" + name, variant=name)
 
     # ---- 4. large tables: growth and shrinkage across many rehash sizes (5, 11, 23, 53, 101, 197, 389, 683, ...), sampled projection
-    big = 700 if quick else 5000
+    big = 700 if quick else 3900              # (the harness value table holds 4095 tokens)
     ks = sorted({rng.choice([0, 3, 54]) + 55 * rng.randrange(0, 40 * big) for _ in range(big)})       # three residue classes mod 5 and 11
     L = ["reset", "new 1 Table"]
     order = list(range(1, len(ks) + 1))
